@@ -181,6 +181,22 @@ PROPS["C02"] = dict(
     assumptions=["custom dialects keep is_delimited_identifier_start within {\", [, `} (hypothesis of no_panic_of_delims)"],
 )
 
+PROPS["C15"] = dict(
+    lean=["SqlVerif.Props.C15"],
+    namespaces=["SqlVerif.Props.C15"],
+    required=["SqlVerif.Props.C15.row_forward_eq", "SqlVerif.Props.C15.wrapped_tokenizes_alike",
+              "SqlVerif.Props.C15.wrapped_parses_alike", "SqlVerif.Props.C15.interface_only"],
+    corr=["tok", "prec", "chains"],
+    corr_env={"VERIF_WRAP": "1"},
+    unique_output={"tok": True, "prec": False, "chains": False},
+    oracle=["C15"],
+    level_text="The tokenizer and expression-parser models take the dialect as a record of interface values (every capability method, the precedence table, the character predicates, the identity reported by dialect()) and have no access to a concrete type; Lean proves that the record of a forwarding dialect (wrapper generated from the current trait definition) equals the inner one, hence both models behave identically, and that any function of the record is determined by the interface values. The tie carries the weight: in this check the tok, prec and chains streams run the REAL crate under the generated forwarding wrapper Wrapped(D) (every trait method forwarded, generated by build.rs from the current trait so that a new method is forwarded automatically) against the models under D's own tabulated record, so any consultation of the concrete type inside the modelled code is a disagreement; the inventory pins every type_id()/downcast and every dialect_of! use in src/. Whole grammar: real-vs-real oracle (wrapped vs built-in, parse and tokenize, every corpus literal x 13 dialects x 2 option sets) and no-panic under a wrapper that keeps its own identity.",
+    level_note="Trusted: Lean kernel; the models (tokenizer, Pratt fragment) and their streams; build.rs wrapper generation. Outside the modelled fragment the property is decided by the real-vs-real oracle only.",
+    technique="Lean 4 theorem (models depend on the interface record only) + model-vs-real-under-generated-wrapper streams + type_id/dialect_of inventory + real-vs-real wrapper oracle",
+    trusted_base=["harness/build.rs generates Wrapped/WrappedOwnId from trait Dialect"],
+    assumptions=[],
+)
+
 PROPS["C11"] = dict(
     lean=["SqlVerif.Props.C11"],
     namespaces=["SqlVerif.Props.C11"],
